@@ -474,6 +474,7 @@ func ruleEscSet(c *Ctx) {
 	l := c.L
 	sp := b.Codec
 	b.memberNameEscapes(l)
+	b.optionsHandedOn(l)
 	b.nestedEncodings(l)
 	tables := map[*ssa.Global]*[256]bool{}
 	for _, n := range []string{"safeSet", "htmlSafeSet"} {
